@@ -185,6 +185,34 @@ impl Lattice {
     }
 }
 
+#[cfg(vibrato_verif)]
+impl Lattice {
+    /// Verification hook: every node per end boundary `0..=len_char` in insertion order as
+    /// `[start_node, start_word, lex_type, word_id, left_id, right_id, min_idx, min_cost]`,
+    /// then the EOS node, then the number of boundary lists currently allocated.
+    #[allow(clippy::type_complexity)]
+    pub fn verif_dump(&self) -> (Vec<Vec<[i64; 8]>>, Option<[i64; 8]>, usize) {
+        fn row(n: &Node) -> [i64; 8] {
+            [
+                n.start_node as i64,
+                n.start_word as i64,
+                n.lex_type as i64,
+                i64::from(n.word_id),
+                i64::from(n.left_id),
+                i64::from(n.right_id),
+                i64::from(n.min_idx),
+                i64::from(n.min_cost),
+            ]
+        }
+        let upto = (self.len_char + 1).min(self.ends.len());
+        let ends = self.ends[..upto]
+            .iter()
+            .map(|v| v.iter().map(row).collect())
+            .collect();
+        (ends, self.eos.as_ref().map(row), self.ends.len())
+    }
+}
+
 impl std::fmt::Debug for Lattice {
     fn fmt(&self, f: &mut std::fmt::Formatter<'_>) -> std::fmt::Result {
         writeln!(f, "Lattice {{ eos: {:?}, ends: [", &self.eos)?;
